@@ -9,6 +9,9 @@ function
 * the arithmetic in front of a guard mirrors the C statement including its integer width: `(int)x` is `trunc32`,
   `size_t` arithmetic is `truncU64`, and a *signed* C operation whose mathematical result does not fit its type is
   the explicit outcome `Err.ub` (undefined behaviour, reported by UBSan on the real driver), never silently wrapped;
+  the "counted from the end" subtractions `size - i` are the REGENERATED `rev_*`: done in uint64_t in
+  push_indexed_lvalue (they wrap by definition), through the saturating helper `range_from_end` (REGENERATED
+  `rangeFromEnd`) in f_range / f_extract_range; `revSitesUnsigned` / `revSitesHelper` record which shape each site has;
 * an access is (target allocation, offset, width, read|write) in element units (svalues for arrays, bytes otherwise).
 
 The model mirrors the code that exists, with the build's configuration (OLD_RANGE_BEHAVIOR is defined).
@@ -113,7 +116,8 @@ def lindexCore (k : Kind) (onStack : Bool) (size ind v : Int) : R :=
   | .buf =>
     if (if onStack then guard_sindex_buf ind size else guard_lindex_buf ind size) then
       .error (.lpc (if onStack then msg_sindex_buf else msg_lindex_buf))
-    else if !byteStoreOk v then .error (.lpc "*Strings cannot contain 0 bytes.")
+    -- buffers accept a 0 byte when the NUL tests exempt them (REGENERATED `bufNulStoreAllowed`)
+    else if !bufNulStoreAllowed && !byteStoreOk v then .error (.lpc "*Strings cannot contain 0 bytes.")
     else .ok ⟨[wr .owner ind 1], .stored ind (v % 256)⟩
   | .arr =>
     if (if onStack then guard_sindex_arr ind size else guard_lindex_arr ind size) then
@@ -127,15 +131,13 @@ def opLindex (k : Kind) (reverse onStack : Bool) (size : Int) (n v : Int) : R :=
   | .str =>
     if onStack then .error (.lpc "*Illegal to make char lvalue from assigned string.")
     else
-      -- ind = len - ind : size_t arithmetic, converted to int64_t
-      lindexCore .str onStack size (if reverse then trunc64 (truncU64 (size - n)) else n) v
+      -- ind = len - ind : size_t arithmetic, converted to int64_t (REGENERATED `rev_lindex_str`)
+      lindexCore .str onStack size (if reverse then rev_lindex_str size n else n) v
   | .buf =>
-    -- ind = size - ind : int64_t arithmetic
-    if !inS64 (if reverse then size - n else n) then .error (.ub (if onStack then "sindex_buf" else "lindex_buf"))
-    else lindexCore .buf onStack size (if reverse then size - n else n) v
+    -- ind = LPC_INT_SUB (size, ind) : unsigned arithmetic, converted back (REGENERATED `rev_lindex_buf` / `rev_sindex_buf`)
+    lindexCore .buf onStack size (if reverse then (if onStack then rev_sindex_buf size n else rev_lindex_buf size n) else n) v
   | .arr =>
-    if !inS64 (if reverse then size - n else n) then .error (.ub (if onStack then "sindex_arr" else "lindex_arr"))
-    else lindexCore .arr onStack size (if reverse then size - n else n) v
+    lindexCore .arr onStack size (if reverse then (if onStack then rev_sindex_arr size n else rev_lindex_arr size n) else n) v
 
 /-- slice_array (p, from, to) for an array of `size` elements -/
 def sliceArray (size : Int) (from0 to0 : Int) : Out :=
@@ -164,13 +166,9 @@ def opRange (lim : Limits) (k : Kind) (r1 r2 : Bool) (size : Int) (n1 n2 : Int) 
   match k with
   | .str =>
     let len := size
-    let to1 := if r2 then len - n2 else n2
-    if !inS64 to1 then .error (.ub "range_str_to")
-    else
+    let to1 := if r2 then rev_range_str_to len n2 else n2
     let to2 := if guard_range_str_to_neg to1 then to1 + len else to1
-    let from1 := if r1 then len - n1 else n1
-    if !inS64 from1 then .error (.ub "range_str_from")
-    else
+    let from1 := if r1 then rev_range_str_from len n1 else n1
     let from2 := if guard_range_str_from_neg from1 then from1 + len else from1
     let from3 := if guard_range_str_from_clamp from2 then 0 else from2
     if guard_range_str_empty to2 from3 len then .ok ⟨[], .slice 0 0⟩
@@ -182,13 +180,9 @@ def opRange (lim : Limits) (k : Kind) (r1 r2 : Bool) (size : Int) (n1 n2 : Int) 
       .ok ⟨[rd .owner from3 (to2 - from3 + 1), wr (.fresh (to2 - from3 + 1)) 0 (to2 - from3 + 2)], .slice from3 (to2 - from3 + 1)⟩
   | .buf =>
     let len := size
-    let to1 := if r2 then len - n2 else n2
-    if !inS64 to1 then .error (.ub "range_buf_to")
-    else
+    let to1 := if r2 then rev_range_buf_to len n2 else n2
     let to2 := if guard_range_buf_to_neg to1 then to1 + len else to1
-    let from1 := if r1 then len - n1 else n1
-    if !inS64 from1 then .error (.ub "range_buf_from")
-    else
+    let from1 := if r1 then rev_range_buf_from len n1 else n1
     let from2 := if guard_range_buf_from_neg from1 then
         (if guard_range_buf_from_neg2 from1 len then 0 else from1 + len) else from1
     if guard_range_buf_empty to2 from2 len then .ok ⟨[], .slice 0 0⟩
@@ -197,39 +191,31 @@ def opRange (lim : Limits) (k : Kind) (r1 r2 : Bool) (size : Int) (n1 n2 : Int) 
       if guard_alloc_buffer (to3 - from2 + 1) lim.maxBuffer then .error (.lpc msg_alloc_buffer)
       else .ok ⟨[rd .owner from2 (to3 - from2 + 1), wr (.fresh (to3 - from2 + 1)) 0 (to3 - from2 + 1)], .slice from2 (to3 - from2 + 1)⟩
   | .arr =>
-    let to1 := if r2 then size - n2 else n2
-    if !inS64 to1 then .error (.ub "range_arr_to")
-    else
-    let from1 := if r1 then size - n1 else n1
-    if !inS64 from1 then .error (.ub "range_arr_from")
-    else .ok (rangeArrCore size from1 to1)
+    let to1 := if r2 then rev_range_arr_to size n2 else n2
+    let from1 := if r1 then rev_range_arr_from size n1 else n1
+    .ok (rangeArrCore size from1 to1)
 
 /-- f_extract_range (code): `c[n1..]` -/
 def opErange (lim : Limits) (k : Kind) (r1 : Bool) (size : Int) (n1 : Int) : R :=
   match k with
   | .str =>
     let len := size
-    let from1 := if r1 then len - n1 else n1
-    if !inS64 from1 then .error (.ub "erange_str_from")
-    else
+    let from1 := if r1 then rev_erange_str_from len n1 else n1
     let from2 := if guard_erange_str_from_neg from1 then
         (if guard_erange_str_from_neg2 from1 len then 0 else from1 + len) else from1
     if guard_erange_str_empty from2 len then .ok ⟨[], .slice 0 0⟩
     else .ok ⟨[rd .owner from2 (len - from2 + 1), wr (.fresh (len - from2)) 0 (len - from2 + 1)], .slice from2 (len - from2)⟩
   | .buf =>
     let len := size
-    let from1 := if r1 then len - n1 else n1
-    if !inS64 from1 then .error (.ub "erange_buf_from")
-    else
+    let from1 := if r1 then rev_erange_buf_from len n1 else n1
     let from2 := if guard_erange_buf_from_neg from1 then
         (if guard_erange_buf_from_neg2 from1 len then 0 else from1 + len) else from1
     let from3 := if guard_erange_buf_from_hi from2 len then len else from2
     if guard_alloc_buffer (len - from3) lim.maxBuffer then .error (.lpc msg_alloc_buffer)
     else .ok ⟨[rd .owner from3 (len - from3), wr (.fresh (len - from3)) 0 (len - from3)], .slice from3 (len - from3)⟩
   | .arr =>
-    let from1 := if r1 then size - n1 else n1
-    if !inS64 from1 then .error (.ub "erange_arr_from")
-    else .ok (erangeArrCore size from1)
+    let from1 := if r1 then rev_erange_arr_from size n1 else n1
+    .ok (erangeArrCore size from1)
 
 /-- push_lvalue_range once the narrowed operands `i1 = (code & 0x10) ? size - (int)n1 : (int)n1` and `i2` (same for
     the 2nd operand) are named: pre-checks on the 64-bit operands, exact tests on the ints.  The second index is
